@@ -53,11 +53,12 @@ section
 variable (L : BoardLaws)
 include L
 
-theorem nLoop_best {fuel : Nat} (b0 : Board) (hwf : wf b0 = true) (P : Move → Prop) :
+theorem nLoop_best {fuel : Nat} (b0 : Board) (hinv : Inv (fuel + 1) b0) (P : Move → Prop) :
     ∀ (moves : List Move), (∀ m ∈ moves, Generated b0 m) → (∀ m ∈ moves, isValid (make b0 m) = true → P m) →
     ∀ (s : St) (ply maxPly : Nat) (beta : Int) (isPv : Bool) (pvMove : Option Move) (h ph : UInt64) (rem : Nat)
       (acc : LoopAcc), vis s.board = vis b0 → (∀ m, acc.bestMove = some m → P m) →
       ∀ m, (negamaxLoop fuel s moves ply maxPly beta isPv pvMove h ph rem acc).1.bestMove = some m → P m := by
+  have hwf := hinv.wf
   intro moves
   induction moves with
   | nil => intro _ _ s ply maxPly beta isPv pvMove h ph rem acc _ hacc; rw [negamaxLoop_nil]; exact hacc
@@ -69,15 +70,12 @@ theorem nLoop_best {fuel : Nat} (b0 : Board) (hwf : wf b0 = true) (P : Move → 
     have hmk : vis (make s.board m) = vis (make b0 m) := make_congr hs m
     rw [negamaxLoop_cons]
     split
-    · exact ih hrest hPrest _ ply maxPly beta isPv pvMove h ph rem acc (back L hwf hm hmk) hacc
+    · exact ih hrest hPrest _ ply maxPly beta isPv pvMove h ph rem acc (back hwf hm hmk) hacc
     · rename_i hv
-      have hv' : isValid (make b0 m) = true := by
-        rw [← isValid_congr hmk]; simpa using hv
-      have hwf1 : wf (make s.board m) = true := by
-        rw [wf_congr hmk]; exact L.make_wf b0 hwf m hm hv'
+      obtain ⟨hwf1, hv'⟩ := child_inv L hinv hs hm (by simpa using hv)
       have hr := negamax_ok L fuel { s with board := make s.board m } (ply + 1) maxPly (-beta) (-acc.alpha)
         (childPvOf isPv pvMove m) (h ^^^ (Zobrist.xorOf m.f).1) (ph ^^^ (Zobrist.xorOf m.f).2) hwf1
-      have hb := back L hwf hm (hr.trans hmk)
+      have hb := back hwf hm (hr.trans hmk)
       have hacc' : ∀ x, (accUpdate acc m (negamax fuel { s with board := make s.board m } (ply + 1) maxPly (-beta) (-acc.alpha)
           (childPvOf isPv pvMove m) (h ^^^ (Zobrist.xorOf m.f).1) (ph ^^^ (Zobrist.xorOf m.f).2)).1).bestMove = some x → P x := by
         intro x hx
@@ -97,7 +95,7 @@ theorem nLoop_best {fuel : Nat} (b0 : Board) (hwf : wf b0 = true) (P : Move → 
 
 /-- **a root search not answered from the table returns a legal move of the (filtered) buffer, or none** -/
 theorem root_move_from_buffer (fuel : Nat) (s : St) (maxPly : Nat) (a b : Int) (isPv : Bool) (hash ph : UInt64)
-    (hwf : wf s.board = true) (hpos : 0 < maxPly) (hfresh : TTRootFresh s hash maxPly) (m : Move)
+    (hinv : Inv fuel s.board) (hpos : 0 < maxPly) (hfresh : TTRootFresh s hash maxPly) (m : Move)
     (hm : (negamax fuel s 0 maxPly a b isPv hash ph).1.mv = some m) :
     m ∈ rootBuffer s 0 ∧ isValid (make s.board m) = true := by
   cases fuel with
@@ -131,7 +129,7 @@ theorem root_move_from_buffer (fuel : Nat) (s : St) (maxPly : Nat) (a b : Int) (
               rw [this] at hz
               cases hz
             · have hbm := finish_mv hm
-              have hwf3 : wf (enter s hash).board = true := by rw [he]; exact hwf
+              have hwf3 : Inv (fuel + 1) (enter s hash).board := by rw [he]; exact hinv
               have := nLoop_best L (enter s hash).board hwf3
                 (fun x => x ∈ rootBuffer s 0 ∧ isValid (make s.board x) = true)
                 _ (fun x hx => Or.inl (mem_rootBuffer_genPseudo (mem_sortMoves.mp hx)))
@@ -180,16 +178,17 @@ include L
 
 /-- in every iteration the root result is `none` or a legal move of the position (allowed by `searchmoves`);
 the transposition table cannot answer at the root because all its entries are shallower than the iteration depth -/
-theorem iters_legal (b0 : Board) (hwf0 : wf b0 = true) (sm : List String) :
+theorem iters_legal (b0 : Board) (sm : List String) :
     ∀ (n : Nat) (s : St) (d mt : Nat) (u : Option (List Move)) (sc : Option Score),
-      vis s.board = vis b0 → s.go.searchMoves = sm → 1 ≤ d → TTBound (d - 1) s →
+      Inv (fuelFor d + n) b0 → vis s.board = vis b0 → s.go.searchMoves = sm → 1 ≤ d → TTBound (d - 1) s →
       ∀ r ∈ iters n s d mt u sc, ∀ m, r.1.mv = some m → LegalRoot b0 sm m := by
   intro n
   induction n with
-  | zero => intro s d mt u sc _ _ _ _ r hr; simp [iters] at hr
+  | zero => intro s d mt u sc _ _ _ _ _ r hr; simp [iters] at hr
   | succ n ih =>
-    intro s d mt u sc hs hsm hd htt r hr m hm
-    have hwf : wf s.board = true := by rw [wf_congr hs]; exact hwf0
+    intro s d mt u sc hinv0 hs hsm hd htt r hr m hm
+    have hinv : Inv (fuelFor d + (n + 1)) s.board := Inv_congr hs.symm hinv0
+    have hwf : Inv (fuelFor d) s.board := Inv_mono (Nat.le_add_right _ _) hinv
     simp only [iters, List.mem_cons] at hr
     rcases hr with rfl | hr
     · have hfresh : TTRootFresh s (Zobrist.hash s.board) d := by
@@ -207,13 +206,13 @@ theorem iters_legal (b0 : Board) (hwf0 : wf b0 = true) (sm : List String) :
         obtain ⟨-, -, hgo, -, -⟩ := rootSearch_rel (kept_stepRel d) s
         have htt' : TTBound d (rootSearch s d).2 :=
           rootSearch_rel (ttRel_stepRel (Nat.le_refl d)) s (fun h e he => Nat.le_trans (htt h e he) (Nat.sub_le _ _))
-        refine ih (iterState (rootSearch s d) d sc u) (d + 1) mt _ _ ?_ ?_ (by omega) ?_ r hr m hm
+        refine ih (iterState (rootSearch s d) d sc u) (d + 1) mt _ _ (Inv_mono (by unfold fuelFor; omega) hinv0) ?_ ?_ (by omega) ?_ r hr m hm
         · rw [he]; exact hb.trans hs
         · rw [he]; show (rootSearch s d).2.go.searchMoves = sm; rw [hgo]; exact hsm
         · rw [he]; exact htt'
 
 /-- **the announced best move is a legal move of the position held (and one of `searchmoves` when given)** -/
-theorem go_bestmove_legal (s : St) (g : GoParams) (maxIter : Nat) (hwf : wf s.board = true) (m : Move)
+theorem go_bestmove_legal (s : St) (g : GoParams) (maxIter : Nat) (hinv : Inv (goBudget maxIter) s.board) (m : Move)
     (hm : bestMoveOf (goDeepen s g maxIter).1 = some m) : LegalRoot s.board g.searchMoves m := by
   rw [goDeepen_best] at hm
   cases hl : (completed (goIterations s g maxIter)).getLast? with
@@ -224,17 +223,18 @@ theorem go_bestmove_legal (s : St) (g : GoParams) (maxIter : Nat) (hwf : wf s.bo
       have := List.mem_of_getLast? hl
       unfold completed at this
       exact (List.mem_filter.mp this).1
-    exact iters_legal L s.board hwf g.searchMoves _ (goPrep s g) 1 _ none none (by rw [goPrep_board])
+    exact iters_legal L s.board g.searchMoves _ (goPrep s g) 1 _ none none
+      (Inv_mono (by have := goIters_le g maxIter; unfold fuelFor goBudget; omega) hinv) (by rw [goPrep_board])
       (goPrep_searchMoves s g) (Nat.le_refl 1) (goPrep_ttBound s g) r hr m hm
 
 /-- **no legal move: the answer is the null move** -/
-theorem go_nolegal_null (s : St) (g : GoParams) (maxIter : Nat) (hwf : wf s.board = true)
+theorem go_nolegal_null (s : St) (g : GoParams) (maxIter : Nat) (hinv : Inv (goBudget maxIter) s.board)
     (hno : ∀ m, ¬ LegalRoot s.board g.searchMoves m) :
     ∃ infos, (goCmd s g maxIter).out = .bestMove none none :: (infos ++ s.out) ∧ bestMoves infos = [] := by
   have hb : bestMoveOf (goDeepen s g maxIter).1 = none := by
     cases h : bestMoveOf (goDeepen s g maxIter).1 with
     | none => rfl
-    | some m => exact absurd (go_bestmove_legal L s g maxIter hwf m h) (hno m)
+    | some m => exact absurd (go_bestmove_legal L s g maxIter hinv m h) (hno m)
   obtain ⟨news, h, hc, -⟩ := goCmd_out s g maxIter
   refine ⟨news, ?_, hc.bestMoves_nil⟩
   rw [h]
